@@ -57,6 +57,8 @@ def check_frame_writer(ctx, rule, P, fn_key, msg_param, sink_pred, sink_desc):
     )
     # accepted equivalent: resize(32,0) guarded by len<32 is normalised by the evaluator as ("resize",..): treat as weak
     weak = not strong
+    if B.may_truncate(segs) and not ok:
+        ctx.ob(rule, "%s/frame-truncation" % fn_key, False, "the framed payload goes through a step that can cut bytes off (resize to a length not provably >= the current length, truncate, drain, ..): %s" % B.show_nf(segs), where=where(fn, s.bb))
     ctx.ob(
         rule,
         "%s/frame" % fn_key,
